@@ -7,6 +7,7 @@ import (
 	"go/types"
 	"sort"
 	"strings"
+	"sync"
 
 	"golang.org/x/tools/go/ssa"
 )
@@ -1405,6 +1406,41 @@ func Eval(v ssa.Value, env Env) (constant.Value, bool) {
 		return nil, false
 	case *ssa.ChangeType:
 		return Eval(x.X, env)
+	case *ssa.Lookup:
+		// a lookup in a package-level table that is filled by its initialiser and never written again
+		if x.CommaOk {
+			return nil, false
+		}
+		ld, isL := x.X.(*ssa.UnOp)
+		if !isL || ld.Op != token.MUL {
+			return nil, false
+		}
+		g, isG := ld.X.(*ssa.Global)
+		if !isG {
+			return nil, false
+		}
+		tbl, okT := readOnlyTable(g)
+		if !okT {
+			return nil, false
+		}
+		k, okK := Eval(x.Index, env)
+		if !okK || k.Kind() != constant.String {
+			return nil, false
+		}
+		if val, has := tbl[constant.StringVal(k)]; has {
+			return val, true
+		}
+		if b, isB := x.Type().Underlying().(*types.Basic); isB {
+			switch {
+			case b.Info()&types.IsBoolean != 0:
+				return constant.MakeBool(false), true
+			case b.Info()&types.IsString != 0:
+				return constant.MakeString(""), true
+			case b.Info()&types.IsInteger != 0:
+				return constant.MakeInt64(0), true
+			}
+		}
+		return nil, false
 	case *ssa.Convert:
 		c, ok := Eval(x.X, env)
 		if !ok {
@@ -2315,4 +2351,102 @@ func stableOperands(fn *ssa.Function, bo *ssa.BinOp) bool {
 		}
 	}
 	return true
+}
+
+var (
+	roTableMu sync.Mutex
+	roTables  = map[*ssa.Global]map[string]constant.Value{}
+	roTableOK = map[*ssa.Global]bool{}
+)
+
+// readOnlyTable: the contents of an unexported package-level map[string]<basic> that is built
+// by a composite literal of constants in the package initialiser and is not written, deleted
+// from, re-assigned or handed out anywhere else in its package.
+func readOnlyTable(g *ssa.Global) (map[string]constant.Value, bool) {
+	roTableMu.Lock()
+	defer roTableMu.Unlock()
+	if t, done := roTables[g]; done {
+		return t, roTableOK[g]
+	}
+	tbl := map[string]constant.Value{}
+	ok := g.Pkg != nil && !g.Object().Exported()
+	var mk ssa.Value
+	nstores := 0
+	if ok {
+		var fns []*ssa.Function
+		for _, m := range g.Pkg.Members {
+			switch y := m.(type) {
+			case *ssa.Function:
+				fns = append(fns, WithClosures(y)...)
+			case *ssa.Type:
+				for _, t := range []types.Type{y.Type(), types.NewPointer(y.Type())} {
+					ms := g.Pkg.Prog.MethodSets.MethodSet(t)
+					for k := 0; k < ms.Len(); k++ {
+						if f := g.Pkg.Prog.MethodValue(ms.At(k)); f != nil && f.Pkg == g.Pkg {
+							fns = append(fns, WithClosures(f)...)
+						}
+					}
+				}
+			}
+		}
+		for _, fn := range fns {
+			isInit := fn.Name() == "init" && fn.Parent() == nil
+			EachInstrRaw(fn, func(i ssa.Instruction) {
+				switch y := i.(type) {
+				case *ssa.Store:
+					if y.Addr == ssa.Value(g) {
+						nstores++
+						if !isInit {
+							ok = false
+						}
+						mk = y.Val
+					}
+				case *ssa.UnOp:
+					if y.Op != token.MUL || y.X != ssa.Value(g) {
+						return
+					}
+					for _, r := range Refs(y) {
+						switch z := r.(type) {
+						case *ssa.Lookup:
+							if z.X != ssa.Value(y) {
+								ok = false
+							}
+						case *ssa.Range, *ssa.DebugRef:
+						case *ssa.Call:
+							if b, isB := z.Call.Value.(*ssa.Builtin); !isB || b.Name() != "len" {
+								ok = false
+							}
+						default:
+							ok = false
+						}
+					}
+				}
+			})
+		}
+	}
+	if ok && nstores == 1 && mk != nil {
+		if _, isMk := mk.(*ssa.MakeMap); !isMk {
+			ok = false
+		} else {
+			for _, r := range Refs(mk) {
+				switch z := r.(type) {
+				case *ssa.MapUpdate:
+					k, okk := z.Key.(*ssa.Const)
+					v, okv := z.Value.(*ssa.Const)
+					if !okk || !okv || k.Value == nil || v.Value == nil || k.Value.Kind() != constant.String {
+						ok = false
+					} else {
+						tbl[constant.StringVal(k.Value)] = v.Value
+					}
+				case *ssa.Store, *ssa.DebugRef:
+				default:
+					ok = false
+				}
+			}
+		}
+	} else {
+		ok = false
+	}
+	roTables[g], roTableOK[g] = tbl, ok
+	return tbl, ok
 }
